@@ -203,6 +203,7 @@ def make_module(fs, cfg=None, reinit=True):
         p4 = PersistentParam('string', StringType(), readonly=False, default='dflt', persistent='auto')
         p5 = PersistentParam('struct', StructOf(x=FloatRange(), n=IntRange()), readonly=False, default={'x': 0, 'n': 0},
                              persistent='auto')
+        p6 = PersistentParam('readonly persistent (no write method at all)', FloatRange(0, 100), default=0.5, persistent='auto')
         q = Parameter('not persistent', FloatRange(), readonly=False, default=0)
 
         def write_p1(self, value):
@@ -381,7 +382,7 @@ def run_precedence(env, p):
     cfgv = env.real('c1', 0, 100)
     fs.files[TARGET] = [('RAW', {'p1': stored1, 'p2': stored2})]
     from frappy.config import Param
-    which = env.choice('configured', 3)     # p1 has a write method, p2 / p4 have none
+    which = env.choice('configured', 4)     # p1 has a write method, p2 / p4 only the generated wrapper, p6 none at all
     if which == 0:
         srv, mod, wlog = make_module(fs, cfg={'p1': {'value': cfgv}})
         env.check(mod.p1 == cfgv, K + '/configured-value-overridden-by-file')
@@ -391,6 +392,11 @@ def run_precedence(env, p):
         srv, mod, wlog = make_module(fs, cfg={'p2': {'value': cfg2}})
         env.check(mod.p2 == cfg2, K + '/configured-value-overridden-by-file/no-write-method')
         env.check(mod.p1 == stored1, K + '/stored-value-not-restored')
+    elif which == 3:
+        fs.files[TARGET] = [('RAW', {'p1': stored1, 'p2': stored2, 'p6': stored1})]
+        srv, mod, wlog = make_module(fs, cfg={'p6': {'value': cfgv}})
+        env.check(mod.p6 == cfgv, K + '/configured-value-overridden-by-file/no-write-method')
+        env.check(mod.p2 == stored2, K + '/stored-value-not-restored')
     else:
         fs.files[TARGET] = [('RAW', {'p1': stored1, 'p2': stored2, 'p4': 'stored'})]
         srv, mod, wlog = make_module(fs, cfg={'p4': {'value': 'configured'}})
@@ -422,7 +428,7 @@ def run_corrupt(env, p):
         env.fail(K + '/startup-prevented/' + type(e).__name__, repr(e))
         return
     env.note('corrupt-tolerated')
-    defaults = {'p1': 1.5, 'p2': 2, 'p3': 1, 'p4': 'dflt', 'p5': {'x': 0, 'n': 0}}
+    defaults = {'p1': 1.5, 'p2': 2, 'p3': 1, 'p4': 'dflt', 'p5': {'x': 0, 'n': 0}, 'p6': 0.5}
     good = {}
     if isinstance(content, dict):
         for n, v in content.items():
